@@ -23,9 +23,9 @@ RULE = (
 )
 ASSUMPTIONS = ["escape decoding default (on); no backslashes in the generated texts"]
 
-ALPHABET = ["a", "0", "1", "10", "~", "/", "é", "", "01", "-"]
+ALPHABET = ["a", "0", "1", "10", "~", "/", "é", "", "01", "-", "a\nb"]
 OFFSETS = [0, 1, -1, 2, -2, 10, -10, 12, -12]
-SUFFIXES = ["", "#", ["a"], ["0"], ["~", "/"], ["é", ""], ["m~n", "a/b", "10"]]
+SUFFIXES = ["", "#", ["a"], ["0"], ["~", "/"], ["é", ""], ["m~n", "a/b", "10"], ["line\nbreak", "x"], ["a\rb\tc d"]]
 
 
 def plan(tier, seed):
